@@ -39,6 +39,8 @@ pub struct Guest {
     /// vectors that have an interrupt handler
     pub vectors: Vec<u8>,
     pub nested: bool,
+    /// Some(n): the tail runs long enough to drain a burst of n requests
+    pub big: Option<u32>,
 }
 
 fn emit(v: &mut Vec<u8>, i: Insn) {
@@ -174,6 +176,16 @@ pub fn build_guest(e: &mut Ent) -> Guest {
     for _ in 0..90 {
         emit(&mut m, Insn::MovRR { sz: Sz::B, s: 8, d: 8 });
     }
+    // rare class: a burst of several hundred requests (sizes around 2^8 and 2^9) needs a longer tail
+    // (only with handlers that keep interrupts masked: hundreds of nested frames would overflow the guest's stack)
+    let big = if !nested && e.chance(1, 12) { Some(e.pick(&[255u32, 256, 257, 300, 511, 512, 513, 1000])) } else { None };
+    if let Some(n) = big {
+        emit(&mut m, Insn::MovImm { sz: Sz::W, imm: n + 32, d: 5 });
+        let top = m.len();
+        emit(&mut m, Insn::Un { op: UnOp::Dec1, sz: Sz::W, d: 5 });
+        let disp = top as i32 - (m.len() as i32 + 2);
+        emit(&mut m, Insn::Bcc { cond: 6, disp, wide: false });
+    }
     emit(&mut m, Insn::Jmp(JTarget::Abs(lay.stop)));
     assert!(m.len() < 0xc00);
     image.push((lay.code, m));
@@ -181,7 +193,7 @@ pub fn build_guest(e: &mut Ent) -> Guest {
     er[7] = lay.stack_top | if e.chance(1, 4) { e.upper_byte() } else { 0 };
     // main starts masked or unmasked
     let prog = Prog { image, er, ccr: e.u8(), pc: lay.code, bus: e.bus_cfg() };
-    Guest { prog, lay, vectors, nested }
+    Guest { prog, lay, vectors, nested, big }
 }
 
 pub struct RunInfo {
@@ -399,8 +411,16 @@ fn build_schedule(e: &mut Ent, g: &Guest, base_len: usize) -> Vec<(u32, u8)> {
         1 => 1 + e.below(3),
         _ => 1 + e.below(64),
     };
-    let horizon = (base_len.saturating_sub(60)).max(4) as u32;
+    let horizon = (base_len.saturating_sub(60 + g.big.map(|n| 2 * n as usize + 64).unwrap_or(0))).max(4) as u32;
     let mut out = vec![];
+    if let Some(nb) = g.big {
+        // the burst: nb requests of one vector at one boundary
+        let k = e.below(horizon);
+        let v = e.pick(&g.vectors);
+        for _ in 0..nb {
+            out.push((k, v));
+        }
+    }
     let mut burst_at = e.below(horizon);
     for _ in 0..n {
         let k = match e.below(4) {
@@ -425,13 +445,13 @@ fn case_from_json(v: &Value) -> Option<(Guest, Vec<(u32, u8)>)> {
     let lay = Layout { code: g(0), handlers: g(1), counters: g(2), data: g(3), stack_top: g(4), stop: g(5) };
     let vectors = v.get("vectors")?.as_array()?.iter().filter_map(|x| x.as_u64().map(|x| x as u8)).collect();
     let sched = v.get("schedule")?.as_array()?.iter().filter_map(|p| Some((p.get(0)?.as_u64()? as u32, p.get(1)?.as_u64()? as u8))).collect();
-    Some((Guest { prog: Prog::from_json(v.get("prog")?)?, lay, vectors, nested: v.get("nested")?.as_bool()? }, sched))
+    Some((Guest { prog: Prog::from_json(v.get("prog")?)?, lay, vectors, nested: v.get("nested")?.as_bool()?, big: None }, sched))
 }
 
 /// the full judgement of one (guest, schedule): lockstep run with the schedule, run without, metamorphic compare
 pub fn judge(emu: &mut Emu, g: &Guest, sched: &[(u32, u8)]) -> Result<(RunInfo, RunInfo), String> {
     let base = run_guest(emu, g, &[], 6000).map_err(|m| format!("without interrupts: {}", m))?;
-    let with = run_guest(emu, g, sched, 20000)?;
+    let with = run_guest(emu, g, sched, 80000)?;
     // apart from handler effects the program computes the same result
     if with.final_er != base.final_er || with.final_ccr != base.final_ccr {
         return Err(format!("final registers/CCR differ from the run without interrupts: {:08x?}/{:02x} vs {:08x?}/{:02x}", with.final_er, with.final_ccr, base.final_er, base.final_ccr));
@@ -496,6 +516,9 @@ pub fn run(ctx: &Ctx) -> i32 {
                         st.class_n("interrupt entries", with.entries as u64);
                         if g.nested {
                             st.class("program with handlers that re-enable interrupts (nesting)");
+                        }
+                        if g.big.is_some() {
+                            st.class("schedule with a burst of 255-1000 requests of one vector");
                         }
                         let nt = with.raised_while_masked >= 1 || with.max_pending >= 2;
                         if with.raised_while_masked >= 1 {
